@@ -26,8 +26,9 @@ MANIFEST = dict(
          "C37_inv_step; C37_sorting_sound (sorting from any state whatsoever). No size bound, no acyclicity "
          "hypothesis (sorting raises on a cycle after repair F18). The model is tied to the code by replaying "
          "generated and exhaustively enumerated histories on a real DiGraph and comparing the full object state "
-         "step by step inside Coq (vm_compute). Partial in one respect: that a well-formed call *succeeds* is checked "
-         "by the executable reference reading only, not yet proved (see design/C37.md).",
+         "step by step inside Coq (vm_compute). Partial in one respect: that a well-formed call *succeeds* is proved "
+         "for sorting and for construction histories (C18_sort_terminates_acyclic, C18_built_acyclic_sorts); for the "
+         "removal operations it is checked by the executable reference reading only (see design/C37.md).",
     note="Trusted: Coq kernel + vm_compute; hand-written model Model/Graph.v (nodes identified by name; a raising call "
          "ends the history); correspondence is differential testing.",
     technique="Coq proof (invariant over operation histories; soundness of the pass-wise sort from arbitrary state) + "
@@ -37,7 +38,7 @@ MANIFEST = dict(
 TIE_NAME = "Model.Graph.full_trace (init/step) vs pydra.engine.graph.DiGraph"
 TRUSTED = [
     "Model/Graph.v: hand-written model of DiGraph.__init__, nodes/edges setters, _create_connections, add_nodes, "
-    "add_edges, sorting/_sorting, the sorted_nodes property, remove_nodes (hasattr property access, head-of-list fast "
+    "add_edges, sorting/_sorting, the sorted_nodes property, remove_nodes (head-of-list fast path and re-sorting "
     "path), remove_nodes_connections, remove_previous_connections, _checking_successors_nodes, "
     "remove_successors_nodes, copy",
     "modelled, not verified: node objects are identified by their name (one object per name); dictionaries are "
